@@ -8,7 +8,7 @@ use piecewise_polynomial::*;
 use serde_json::json;
 
 const EPS: [f64; 6] = [0.0, f64::EPSILON, 1e-9, 1.0, 1e6, 1e-300];
-const REL: [f64; 4] = [f64::EPSILON, 1e-9, 0.5, 0.0];
+const REL: [f64; 6] = [f64::EPSILON, 1e-9, 0.5, 0.0, 1.5, 10.0];
 
 fn oracle_abs(a: &[f64], b: &[f64], eps: f64) -> bool {
     a.len() == b.len() && a.iter().zip(b).all(|(x, y)| f64::abs_diff_eq(x, y, eps))
